@@ -469,6 +469,16 @@ class SymInt:
                     return 0
                 if o == -1:
                     return self
+                if slo >= 0:
+                    # only the low bit_length(hi) bits of the constant matter
+                    k = shi.bit_length()
+                    o = int(o) & ((1 << k) - 1)
+                    if o == 0:
+                        return 0
+                    if o == (1 << k) - 1:
+                        return self
+                    olo = ohi = o
+                    w = max(self.width, iwidth(o, o))
             if slo >= 0 and olo >= 0:
                 lo, hi = 0, min(shi, ohi)
             elif slo >= 0:
